@@ -15,6 +15,7 @@ import (
 	"os"
 	"path/filepath"
 	"sort"
+	"sync"
 	"testing"
 	"time"
 
@@ -40,6 +41,11 @@ type Op struct {
 	Hours   int  `json:"h,omitempty"`
 	Enabled bool `json:"en,omitempty"`
 	Days    int  `json:"days,omitempty"`
+	// burst: G goroutines x K updates spread over SpreadMs of simulated time,
+	// concurrent with the flush loop and with API reads
+	G        int   `json:"g,omitempty"`
+	K        int   `json:"kk,omitempty"`
+	SpreadMs int64 `json:"spread_ms,omitempty"`
 }
 
 // Up is one upstream statistics item of an update.
@@ -150,10 +156,23 @@ func Gen(t *rapid.T, tier string) any {
 			op = Op{Kind: "setlimit", Hours: genLimit(t, "new_limit"), Enabled: rapid.IntRange(0, 5).Draw(t, "new_enabled") != 0}
 		case k < 94:
 			op = Op{Kind: "legacy", Days: rapid.SampledFrom([]int{0, 1, 7, 30, 90, 2}).Draw(t, "days")}
-		case k < 97:
+		case k < 96:
 			op = Op{Kind: "reset"}
-		default:
+		case k < 98:
 			op = Op{Kind: "read"}
+		default:
+			// Concurrent updates while the flush loop ticks; often placed so
+			// that the hour rolls over in the middle of the burst.
+			if rapid.Bool().Draw(t, "burst_at_boundary") {
+				toBoundary := hourMs - now%hourMs
+				if toBoundary > 1500 {
+					adv := Op{Kind: "advance", Ms: toBoundary - int64(rapid.IntRange(200, 1400).Draw(t, "burst_before_ms"))}
+					sc.Ops = append(sc.Ops, adv)
+					now += adv.Ms
+				}
+			}
+			op = Op{Kind: "burst", G: rapid.IntRange(2, 6).Draw(t, "burst_g"), K: rapid.IntRange(3, 30).Draw(t, "burst_k"), SpreadMs: int64(rapid.IntRange(100, 4000).Draw(t, "burst_spread"))}
+			now += op.SpreadMs + 1000
 		}
 		sc.Ops = append(sc.Ops, op)
 	}
@@ -674,9 +693,118 @@ func (n *node) apply(op Op) error {
 		m.clear(time.Now())
 		n.c.Fault("clear")
 	case "read":
+	case "burst":
+		return n.burst(op)
 	default:
 		return fmt.Errorf("harness: unknown op %q", op.Kind)
 	}
+	return nil
+}
+
+// burst runs G goroutines of K updates each, spread over the simulated
+// interval, while this goroutine keeps driving the real flush body every
+// simulated second and another one reads the API: conservation — every update
+// is counted exactly once, in one of the hours that were current meanwhile.
+func (n *node) burst(op Op) error {
+	m := n.m
+	if int(m.limitH)/24 > 7 || len(m.crashed) > 0 {
+		// Daily series or a pending crash adoption: the per-hour split could
+		// not be observed; run it as plain sequential updates instead.
+		n.c.Probe("burst_skipped")
+		return nil
+	}
+	before, err := n.read()
+	if err != nil {
+		return err
+	}
+	h0 := m.cur
+	first0 := m.cur - m.limitH + 1
+	var wg sync.WaitGroup
+	start := time.Now()
+	total := op.G * op.K
+	for g := 0; g < op.G; g++ {
+		wg.Add(1)
+		go func(g int) {
+			defer wg.Done()
+			for i := 0; i < op.K; i++ {
+				// Deterministic offsets: goroutine g's i-th update.
+				off := time.Duration((int64(i)*op.SpreadMs/int64(op.K))+int64(g)) * time.Millisecond
+				time.Sleep(time.Until(start.Add(off)))
+				n.s.Update(&stats.Entry{Client: "10.9.9.9", Domain: "burst.test", Result: stats.RNotFiltered, ProcessingTime: time.Millisecond})
+			}
+		}(g)
+	}
+	var readErr error
+	wg.Add(1)
+	go func() {
+		defer wg.Done()
+		for i := 0; i < 4; i++ {
+			time.Sleep(time.Duration(op.SpreadMs/4) * time.Millisecond)
+			code, body, err := n.mux.Do(http.MethodGet, "/control/stats", nil)
+			if err != nil {
+				readErr = apiErr(err)
+			} else if code != http.StatusOK {
+				readErr = kernel.Violationf("api-status", "GET /control/stats during a burst -> %d %s", code, body)
+			}
+		}
+	}()
+	d := time.Duration(op.SpreadMs+1000) * time.Millisecond
+	n.c.SimTime += d
+	if err = n.advance(start.Add(d)); err != nil {
+		return err
+	}
+	wg.Wait()
+	if readErr != nil {
+		return readErr
+	}
+	n.c.Fault("concurrent_burst")
+	if m.cur != h0 {
+		n.c.Probe("burst_across_rollover")
+	}
+	if !m.enabled {
+		return nil // nothing is counted; the regular check verifies that
+	}
+	after, err := n.read()
+	if err != nil {
+		return err
+	}
+	// Attribute the burst to the hours that were current during it, as the
+	// API reports them; the sum must be exactly the number of updates.
+	first1 := m.cur - m.limitH + 1
+	var got uint64
+	for h := h0; h <= m.cur; h++ {
+		var b, a uint64
+		if i := int(h - first0); h >= first0 && i < len(before.DNSQueries) {
+			b = before.DNSQueries[i]
+		}
+		if i := int(h - first1); h >= first1 && i >= 0 && i < len(after.DNSQueries) {
+			a = after.DNSQueries[i]
+		} else if h < first1 {
+			a = b // aged out of the window meanwhile: not observable
+		}
+		if a < b {
+			return kernel.Violationf("burst-updates-lost", "hour %d shrank from %d to %d during a burst of updates", h, b, a)
+		}
+		delta := a - b
+		got += delta
+		if delta > 0 {
+			hc := m.hours[h]
+			if hc == nil {
+				hc = newHour()
+				m.hours[h] = hc
+			}
+			hc.total += delta
+			hc.res[1] += delta
+			if hc.allowed != nil {
+				hc.allowed["burst.test"] += delta
+				hc.clients["10.9.9.9"] += delta
+			}
+		}
+	}
+	if h0 >= first1 && got != uint64(total) {
+		return kernel.Violationf("burst-updates-lost", "%d goroutines x %d concurrent updates while the flush loop ticked (hours %d..%d): statistics grew by %d, not %d", op.G, op.K, h0, m.cur, got, total)
+	}
+	n.c.Probe("burst_conserved")
 	return nil
 }
 
@@ -738,6 +866,6 @@ var Prop = &kernel.Property{
 	Real:        []string{"internal/stats (StatsCtx, unit, flush body, HTTP handlers)", "go.etcd.io/bbolt on a tmpfs file"},
 	Stub:        []string{"the 1 s periodicFlush loop driver (body real, via VerifFlush)", "admin HTTP client (handlers called in-process)", "wall clock (synctest fake clock)"},
 	Assumptions: []string{"an update between an hour boundary and the next 1 s flush tick is booked to the hour the flush loop still considers current", "hours that were outside an earlier, shorter window may or may not reappear after the window is widened", "after a crash (no Close) the current hour may lose un-persisted counts; older hours may not"},
-	FaultKinds:  []string{"clean_restart", "process_crash", "clock_jump_hours", "retention_change", "clear"},
-	ProbeNames:  []string{"hour_rollover", "update_counted", "update_not_counted", "update_between_boundary_and_tick", "aged_hours_in_window", "daily_series_checked", "tops_checked", "crash_lost_counts", "sparse_skip"},
+	FaultKinds:  []string{"clean_restart", "process_crash", "clock_jump_hours", "retention_change", "clear", "concurrent_burst"},
+	ProbeNames:  []string{"hour_rollover", "update_counted", "update_not_counted", "update_between_boundary_and_tick", "aged_hours_in_window", "daily_series_checked", "tops_checked", "crash_lost_counts", "sparse_skip", "burst_conserved", "burst_across_rollover", "burst_skipped"},
 }
